@@ -307,3 +307,18 @@ Definition model_counts (c : case) : list (nat * option Z) :=
       let ts := match targets with Some l => l | None => default_targets atoms end in
       map (fun t => (t, match nth_error atoms t with Some a => count_of bonds t a | None => None end)) ts
   end.
+
+(* ------------------------------------------------------------------ what the theorems need from TETRAHEDRON (decided on the Gen table) *)
+Definition dotQ (a b : vecQ) : Q :=
+  let '(a1, a2, a3) := a in let '(b1, b2, b3) := b in a1 * b1 + a2 * b2 + a3 * b3.
+Definition tet_tol : Q := 1 # 100000000.          (* rows are unit vectors to 1e-8 *)
+(* row 0 is exactly a unit vector; rows 1-3 are unit within tet_tol and make the tetrahedral angle with row 0:
+   -0.34 <= t.t0 <= -0.33 *)
+Definition tet_ok (tet : list vecQ) : bool :=
+  match tet with
+  | [t0; t1; t2; t3] =>
+      Qeq_bool (dotQ t0 t0) 1 &&
+      forallb (fun t => Qle_bool (1 - tet_tol) (dotQ t t) && Qle_bool (dotQ t t) (1 + tet_tol)
+                        && Qle_bool (-(34 # 100)) (dotQ t t0) && Qle_bool (dotQ t t0) (-(33 # 100))) [t1; t2; t3]
+  | _ => false
+  end.
